@@ -535,6 +535,19 @@ void harness_step(void)
 		    "step: the message is executed exactly once, after the state has been rebuilt");
 		VERIF_ASSERT(cnt == kept + model_sends + 1 && hist_at(cnt - 1) == m, "step: the new history is the kept prefix + the event's sends + the event");
 		VERIF_ASSERT((m->raw_flags & MSG_FLAG_PROCESSED) && !fr[mi] && !ins[mi], "step: the executed buffer is marked processed and stays owned by the history");
+		{ /* History invariant preserved: no kept processed event is after the newly executed one in the event order.
+		   * A kept entry that its sender has cancelled meanwhile (ANTI set, anti-message still queued) compares as
+		   * "first at its timestamp" and stops the straggler search; entries in front of it are exempt: the pending
+		   * anti-message rolls the LP back to that entry's group, which also undoes this event and re-queues it, so
+		   * it is ordered again against those entries then (worked out on a solver counterexample, see DESIGN.md A.4). */
+			unsigned from = 0;
+			for(unsigned k = 0; k < H; k++)
+				if(k < kept && kind[k] == 0 && (f0[k] & MSG_FLAG_ANTI))
+					from = k;
+			for(unsigned k = 0; k < H; k++)
+				if(k < kept && k >= from && kind[k] == 0)
+					VERIF_ASSERT(!msg_is_before(m, M[k]), "step: the history invariant is preserved - no kept processed event (after the newest cancelled one) is after the newly executed event in the event order");
+		}
 		for(unsigned k = 0; k < NNEW; k++)
 			if(k < model_sends) {
 				struct lp_msg *sm = M[NEW0 + k];
